@@ -38,6 +38,7 @@ type c20Event struct {
 	BodyOk   bool   `json:"bodyok"`
 	BodyNote string `json:"bodynote,omitempty"`
 	Kind     string `json:"kind"`
+	PrevSame bool   `json:"prevsame"` // the frame generated before this one still has the bytes it had when it was returned
 }
 
 var replyBearing = map[int]bool{0x0100: true, 0x0102: true, 0x0002: true, 0x0200: true, 0x0704: true, 0x0800: true, 0x0801: true, 0x1003: true,
@@ -123,6 +124,7 @@ func init() {
 		l := startLive(liveOpts{})
 		r := newRand(2020)
 		wrap := len(a) > 2 && a[2] == "wrap"
+		missed := 0
 		for gi, k := range keys {
 			ph := ""
 			for _, d := range []byte(k.phone) {
@@ -144,9 +146,14 @@ func init() {
 			}
 			t := l.dial(bcd, map[bool]int{true: 1, false: 0}[k.ver == 3])
 			livePser, idx := 0, 0
+			var heldFrame, heldCopy []byte
 			emit := func(cmd int, frame []byte, kind string) {
 				idx++
-				e := c20Event{Ver: k.ver, Phone: B(k.phone), Cmd: cmd, Idx: idx, Frame: frame, Kind: kind, Pred: B{}, Live: B{}}
+				e := c20Event{Ver: k.ver, Phone: B(k.phone), Cmd: cmd, Idx: idx, Frame: frame, Kind: kind, Pred: B{}, Live: B{}, PrevSame: true}
+				if heldFrame != nil && !bytes.Equal(heldFrame, heldCopy) {
+					e.PrevSame = false
+				}
+				heldFrame, heldCopy = frame, append([]byte{}, frame...)
 				dv, m := decodeView(frame)
 				if dv.Ok {
 					e.BodyOk, e.BodyNote = bodyRoundTrip(cmd, ver, m.Body)
@@ -165,7 +172,11 @@ func init() {
 					// the same frame to the real server
 					before := t.nrecv.Load()
 					t.send(frame)
-					if t.waitRecv(before+1, 15*time.Second) { // generous: a slow machine must not look like a missing reply
+					wait := 8 * time.Second // generous: a slow machine must not look like a missing reply
+					if missed >= 2 {
+						wait = 300 * time.Millisecond // ... but once replies failed to come twice the remaining frames are not waited for at length
+					}
+					if t.waitRecv(before+1, wait) {
 						var last []byte
 						for len(t.recvCh) > 0 {
 							last = <-t.recvCh
@@ -173,6 +184,7 @@ func init() {
 						e.HasLive, e.Live, e.LivePser = true, last, livePser
 						livePser = (livePser + 1) % 65536
 					} else if kind != "custom" {
+						missed++
 						e.HasLive, e.Live, e.LivePser = true, B{}, livePser // no reply where one is due: Trace_Terminal rejects
 					}
 				}
@@ -194,7 +206,7 @@ func init() {
 					idx++
 					if i%4096 == 0 || i > 65520-idx%1 && i >= 65500 {
 						dv, _ := decodeView(f)
-						out.put(c20Event{Ver: k.ver, Phone: B(k.phone), Cmd: 2, Idx: idx, Frame: f, Kind: "wrap", BodyOk: dv.Ok, Pred: B{}, Live: B{}})
+						out.put(c20Event{Ver: k.ver, Phone: B(k.phone), Cmd: 2, Idx: idx, Frame: f, Kind: "wrap", BodyOk: dv.Ok, Pred: B{}, Live: B{}, PrevSame: true})
 					}
 				}
 			}
